@@ -117,6 +117,7 @@ class Exec:
         self.index_ctx = []   # enclosing loop indices (z3 Int terms): fresh symbols become functions of them
         self.loop_tag = ()
         self.depth = 0
+        self.guard_base = 0   # number of leading path conditions that are hypotheses of the whole run (see props/aoef_rt.guard_of)
 
     def child(self, module=None):
         c = Exec(self.repo, module or self.module, self.handlers, self.inline, self.mode, self.implicit_exc,
@@ -128,6 +129,7 @@ class Exec:
         c.replay = self.replay
         c.outer_ids = self.outer_ids
         c._bg_keys = self._bg_keys
+        c.guard_base = self.guard_base
         return c
 
     def enter_iteration(self, sub, p):
@@ -161,17 +163,36 @@ class Exec:
         f = z3.And(*facts) if len(facts) != 1 else facts[0]
         if guard is not None:
             f = z3.Implies(guard, f)
+        # Generalise only over genuine index variables, and only where the fresh symbols (functions of the VALUES of the index
+        # terms) determine them: the index term is the variable itself or variable + offset.  Program variables that merely occur
+        # inside an index term (a length, a width) are NOT generalised: two different values of them can give the same index
+        # value with different requirements on the same function value, which would make the background inconsistent.
+        from .values import is_index_var
         vs, seen = [], set()
-        for t in self.index_ctx:
-            stack = [t]
+
+        def index_vars_in(t):
+            out, stack = [], [t]
             while stack:
                 x = stack.pop()
-                if z3.is_const(x) and x.decl().kind() == z3.Z3_OP_UNINTERPRETED and x.sort() == z3.IntSort():
+                if z3.is_const(x):
+                    if x.decl().kind() == z3.Z3_OP_UNINTERPRETED and x.sort() == z3.IntSort() and is_index_var(x):
+                        out.append(x)
+                else:
+                    stack.extend(x.children())
+            return out
+        for t in self.index_ctx:
+            ks = index_vars_in(t)
+            if not ks:
+                continue
+            ok = z3.is_const(t)
+            if not ok and z3.is_app(t) and t.decl().kind() == z3.Z3_OP_ADD:
+                with_k = [c for c in t.children() if index_vars_in(c)]
+                ok = len(with_k) == 1 and z3.is_const(with_k[0])
+            if ok:
+                for x in ks:
                     if x.get_id() not in seen:
                         seen.add(x.get_id())
                         vs.append(x)
-                else:
-                    stack.extend(x.children())
         if vs:
             f = z3.ForAll(vs, f)
         key = f.sexpr() if len(self.bg) < 400 else None
